@@ -179,25 +179,42 @@ func VerifH_C18_limitin() {
 }
 
 // Every SETTINGS frame gets exactly one ACK, and the peer's values are in
-// force afterwards: server side (handleSettings) and client side.
+// force afterwards: server side (handleSettings) and client side. The frame is
+// decoded from wire bytes in which each of the six parameters is present or
+// not, with any legal value; whatever earlier frames announced is arbitrary. A
+// parameter the frame carries takes the new value, one it omits keeps the old
+// (RFC 7540 6.5.3).
 //
-//verif:harness prop=C18,C07 unwind=16
+//verif:harness prop=C18,C07 unwind=16 timeout=600
 func VerifH_C18_ack() {
+	var has [7]bool
+	var val [7]uint32
+	var payload []byte
+	for k := 1; k <= 6; k++ {
+		has[k], val[k] = vBool(), vU32()
+		if has[k] {
+			payload = append(payload, 0, byte(k), byte(val[k]>>24), byte(val[k]>>16), byte(val[k]>>8), byte(val[k]))
+		}
+	}
+	vAssume(!has[2] || val[2] <= 1)
+	vAssume(!has[4] || val[4] <= 1<<31-1)
+	vAssume(!has[5] || (val[5] >= 1<<14 && val[5] <= 1<<24-1))
 	st := &Settings{}
 	st.Reset()
-	st.tableSize, st.maxStreams, st.frameSize = vU32(), vU32(), vU32()
-	vAssume(st.frameSize >= 1<<14 && st.frameSize <= 1<<24-1)
-	st.windowSize = vU32()
-	vAssume(st.windowSize <= 1<<31-1)
-	st.hasWindowSize = vBool()
+	vAssert(st.Read(payload) == nil, "C18.ack.legal-values-accepted")
+	// what earlier SETTINGS frames of the peer left behind
+	prevTable, prevStreams, prevFrame := vU32(), vU32(), vU32()
+	pick := func(k int, prev uint32) uint32 {
+		if has[k] {
+			return val[k]
+		}
+		return prev
+	}
 	if vBool() {
 		sc := vNewServerConn()
-		if vBool() {
-			// an earlier SETTINGS frame has been applied already
-			sc.clientS.Reset()
-			sc.clientS.tableSize, sc.clientS.frameSize, sc.clientS.maxStreams = vU32(), vU32(), vU32()
-			sc.enc.SetMaxTableSize(sc.clientS.tableSize)
-		}
+		sc.clientS.Reset()
+		sc.clientS.tableSize, sc.clientS.frameSize, sc.clientS.maxStreams = prevTable, prevFrame, prevStreams
+		sc.enc.SetMaxTableSize(prevTable)
 		sc.handleSettings(st)
 		frames := vDrainWriter(sc)
 		vAssert(len(frames) == 1, "C18.ack.server.exactly-one")
@@ -205,15 +222,16 @@ func VerifH_C18_ack() {
 			a, ok := frames[0].Body().(*Settings)
 			vAssert(ok && a.IsAck() && frames[0].Stream() == 0, "C18.ack.server.is-ack")
 		}
-		vAssert(sc.enc.maxTableSize == st.tableSize && sc.enc.maxTableSizeSettings == st.tableSize, "C18.ack.server.table-size-in-force")
-		vAssert(sc.enc.DynamicSize() <= st.tableSize, "C18.ack.server.table-within-limit")
-		vAssert(sc.clientS.frameSize == st.frameSize && sc.clientS.maxStreams == st.maxStreams, "C18.ack.server.peer-values-kept")
+		table := pick(1, prevTable)
+		vAssert(sc.enc.maxTableSize == table && sc.enc.maxTableSizeSettings == table, "C18.ack.server.table-size-in-force")
+		vAssert(sc.enc.DynamicSize() <= table, "C18.ack.server.table-within-limit")
+		vAssert(sc.clientS.frameSize == pick(5, prevFrame) && sc.clientS.maxStreams == pick(3, prevStreams), "C18.ack.server.peer-values-kept")
 	} else {
 		c := vNewConn()
 		c.openStreams = int32(vU32())
 		vAssume(c.openStreams >= 0)
-		// whatever earlier SETTINGS frames left behind
-		c.maxFrameSize, c.maxStreams, c.encTableSize = vU32(), vU32(), vU32()
+		c.serverS.tableSize, c.serverS.frameSize, c.serverS.maxStreams = prevTable, prevFrame, prevStreams
+		c.maxFrameSize, c.maxStreams, c.encTableSize = prevFrame, prevStreams, prevTable
 		c.streamWindow = int32(vU32())
 		c.handleSettings(st)
 		frames := vDrainOut(c)
@@ -222,16 +240,17 @@ func VerifH_C18_ack() {
 			a, ok := frames[0].Body().(*Settings)
 			vAssert(ok && a.IsAck() && frames[0].Stream() == 0, "C18.ack.client.is-ack")
 		}
-		vAssert(c.maxFrameSize == st.frameSize && c.maxStreams == st.maxStreams && c.encTableSize == st.tableSize, "C18.ack.client.peer-values-in-force")
-		if st.hasWindowSize {
-			vAssert(c.streamWindow == int32(st.windowSize), "C18.ack.client.initial-window")
+		streams := pick(3, prevStreams)
+		vAssert(c.maxFrameSize == pick(5, prevFrame) && c.maxStreams == streams && c.encTableSize == pick(1, prevTable), "C18.ack.client.peer-values-in-force")
+		if has[4] {
+			vAssert(c.streamWindow == int32(val[4]), "C18.ack.client.initial-window")
 		}
 		// no more concurrently open streams than the server allows
-		if uint32(c.openStreams) >= st.maxStreams && st.maxStreams <= 1<<31-1 {
+		if uint32(c.openStreams) >= streams && streams <= 1<<31-1 {
 			vAssert(!c.CanOpenStream(), "C18.ack.client.max-concurrent-streams")
 		}
 	}
-	vCover("C18.ack.any", true)
+	vCover("C18.ack.omits-some", has[4] && !has[1] && !has[3])
 }
 
 // A response whose header block does not fit one frame of the size the peer
